@@ -94,6 +94,12 @@ class FuseInterp:
 
     def modulus(self, node):
         k = A.neg_const(node)
+        if k is None and isinstance(node, ast.Name):
+            # a module-level integer constant assigned exactly once
+            vals = [st.value for st in self.fi.module.tree.body if isinstance(st, ast.Assign) and len(st.targets) == 1
+                    and isinstance(st.targets[0], ast.Name) and st.targets[0].id == node.id]
+            if len(vals) == 1:
+                k = A.neg_const(vals[0])
         if not isinstance(k, int) or k < 2:
             self.err(node, "modulus is not an integer literal >= 2")
         return k
@@ -633,6 +639,15 @@ def check_leg(chk):
     unknown = []
     for n in A.walk_local(fn, include_self=False):
         if isinstance(n, ast.If) and any(isinstance(b, ast.Raise) for b in n.body):
+            # `for x in S: if <test>: raise`  is the guard  `if any(<test> for x in S): raise`
+            lp = parent.get(n)
+            if isinstance(lp, ast.For) and lp.body == [n] and not lp.orelse and not n.orelse:
+                import copy as _copy
+                n = _copy.copy(n)
+                n.test = ast.Call(func=ast.Name(id="any", ctx=ast.Load()), keywords=[],
+                                  args=[ast.GeneratorExp(elt=n.test, generators=[ast.comprehension(target=lp.target, iter=lp.iter, ifs=[], is_async=0)])])
+                ast.fix_missing_locations(n.test)
+                n._loop_guard = lp
             cat, ok, detail = classify_guard(n.test, inl, sources)
             if cat is None:
                 unknown.append((n, detail))
@@ -709,7 +724,7 @@ def check_leg(chk):
             # must dominate the stores (raise inside the if body -> passing the test node is what matters;
             # the raise must be unconditional inside the body)
             raise_uncond = any(isinstance(b, ast.Raise) for b in n.body)
-            dom = all(cfg.must_pass([s], [n.test]) for s in store_stmts)
+            dom = all(cfg.must_pass([s], [getattr(n, "_loop_guard", None) or n.test]) for s in store_stmts)
             # and be under `not self._verified` only (not under another condition that can be false)
             if raise_uncond and dom:
                 chk.ok("G5", (pi, n), n.test, {"guard": cat, "detail": detail, "dominates_stores": True})
